@@ -18,6 +18,7 @@ EXPLANATION = (
     "(4) carry-over: the MoreInputRequired handler stores the unconsumed codes, the next read prepends and clears them on every path, the timeout closure clears them and "
     "re-parses the same codes with wait_for_more=False, a pending timeout is cancelled before every new parse and armed when an event loop is present; "
     "(5) the special trie values are exactly the ones get_recurse dispatches on and the key table is prefix-free."
+    " Added after seed round 3: (7) FLAG-FWD - every decoder that takes `more_available` receives its caller's own flag (the nested ESC-prefixed decode included); (8) the byte ranges of within_double_byte as integer intervals (C11.8)."
 )
 NOT_DECIDED = (
     "That event names/coordinates are the documented ones for every sequence; equality of event lists under all cuts for value-dependent recognisers "
